@@ -69,9 +69,9 @@ class Ctx:
     # ---- statistics
     def count(self, part, n=1, nontrivial_key=None):
         d = self.parts.setdefault(part, {'cases': 0, 'distinct_nontrivial': 0})
-        d['cases'] += n
-        self.cov['evaluations'] += n
-        self.cov['programs'] += n
+        d["cases"] += int(n)
+        self.cov["evaluations"] += int(n)
+        self.cov["programs"] += int(n)
         if nontrivial_key is not None:
             h = hashlib.md5(repr((part, nontrivial_key)).encode()).digest()[:8]
             if h not in self._distinct:
